@@ -904,8 +904,73 @@ def gen_noexcept_flags(h, report):
     return '\n'.join(out)
 
 
+def gen_calls(h, report):
+    """which allocation primitive the constructors call, and whether the range-length check survives NDEBUG"""
+    scope_b = h.class_scope('small_vector_base')
+    scope_a = h.class_scope('allocator_interface')
+    ctors = list(h.find_functions('small_vector_base', scope_b))
+    rows = {}
+
+    def classify(f):
+        ps = norm(f['params'])
+        if 'std::forward_iterator_tag' in ps:
+            return 'ctorForwardRange'
+        if 'std::input_iterator_tag' in ps:
+            return 'ctorInputRange'
+        if re.match(r'size_ty count\s*,\s*const alloc_ty&', ps):
+            return 'ctorCount'
+        if re.match(r'size_ty count\s*,\s*const value_ty&', ps):
+            return 'ctorCountValue'
+        if re.match(r'size_ty count\s*,\s*Generator', ps):
+            return 'ctorGenerator'
+        if re.match(r'bypass_tag\s*,\s*const small_vector_base<[^>]*>\s*&\s*\w*\s*,\s*const A\s*&', ps):
+            return 'ctorCopy'
+        return None
+
+    for f in ctors:
+        k = classify(f)
+        if not k:
+            continue
+        body = resolve_pp(f['body'])
+        calls = sorted(set(re.findall(r'\b(checked_allocate|unchecked_allocate)\s*\(', body)))
+        if k in rows:
+            raise Untranslatable('two constructors classified as ' + k)
+        rows[k] = (f['line'], calls)
+    need = ['ctorCount', 'ctorCountValue', 'ctorGenerator', 'ctorForwardRange', 'ctorCopy']
+    for k in need:
+        if k not in rows:
+            raise Untranslatable('constructor %s not found' % k)
+        if len(rows[k][1]) != 1:
+            raise Untranslatable('constructor %s calls %s' % (k, rows[k][1]))
+    out = [PRELUDE % 'allocation primitive per constructor; range-length check under NDEBUG', 'namespace SvModel.Gen\n']
+    for k in need:
+        out.append('/-- hpp:%d calls `%s` -/' % (rows[k][0], rows[k][1][0]))
+        out.append('def %sChecked : Bool := %s\n' % (k, 'true' if rows[k][1][0] == 'checked_allocate' else 'false'))
+    # external_range_length_impl: the `numeric_max<size_ty> () < len` test, with NDEBUG defined
+    impls = list(h.find_functions('external_range_length_impl', scope_a))
+    if len(impls) != 2:
+        raise Untranslatable('external_range_length_impl: expected 2 overloads, found %d' % len(impls))
+    flags = []
+    for f in impls:
+        body = norm(resolve_pp(f['body'], MODEL_MACROS | {'NDEBUG'}))
+        # the non-constant-evaluated tail
+        tail = body[body.rfind('const auto len'):]
+        flags.append(bool(re.search(r'if \(numeric_max<size_ty> \(\) < len\) throw_range_length_error \(\)', tail)))
+    thrower = list(h.find_functions('throw_range_length_error', scope_a))
+    thr = False
+    if thrower:
+        a = thrower[0]['start'] - scope_a[0]
+        region = resolve_pp(h.code[scope_a[0]:thrower[0]['end']], MODEL_MACROS | {'NDEBUG'})
+        thr = 'std::length_error' in region[a:]
+    out.append('/-- `external_range_length` throws length_error for a range longer than size_type can hold when NDEBUG is defined (random access, forward) -/')
+    out.append('def rangeLengthCheckedNdebug : Bool := %s\n' % ('true' if all(flags) and thr else 'false'))
+    out.append('end SvModel.Gen\n')
+    report['calls'] = dict(ctors={k: dict(line=v[0], calls=v[1]) for k, v in rows.items()}, range_length_checked_ndebug=flags, thrower_present_ndebug=thr)
+    return '\n'.join(out)
+
+
 GENERATORS = [('Growth', gen_growth), ('Guards', gen_guards), ('Policy', gen_policy), ('Compare', gen_compare),
-              ('Layout', gen_layout), ('NoexceptFlags', gen_noexcept_flags)]
+              ('Layout', gen_layout), ('NoexceptFlags', gen_noexcept_flags), ('Calls', gen_calls)]
 
 
 def main():
